@@ -1135,6 +1135,7 @@ func reflectChain(v ssa.Value) (roots, keys []ssa.Value) {
 // ASG-2: last step of an assignment. Variable.Assign (ASG-1) picks the back-end call; the back end must put the value it
 // was given at the place it was given.
 func ruleASG2(c *Ctx) {
+	asg2AppendReachesTheFact(c)
 	p := c.P
 	type spec struct {
 		typ, method string
@@ -1636,4 +1637,145 @@ func ruleOPT16(c *Ctx) {
 		}
 	}
 	c.Check(bad == "", "GoValueNode.CallFunction / arity pre-checks agree with reflect's rule", p.InstrPos(callSite), fmt.Sprintf("%d arity pre-check(s); reflect's own check applies and its panic is contained", nChecks), bad+": a variadic fact method or built-in called with only its fixed arguments (documented: zero or more values) is rejected")
+}
+
+
+// asg2AppendReachesTheFact (D41): reflect.Append yields a new slice value. The Go back end sets it into the addressable
+// value it wraps; a JSON node wraps a copy of what the enclosing object or array holds, so the longer slice has to be put
+// back there, or `J.arr.Append(7)` changes a node nobody keeps. Decided: in each back end's AppendValue the result of
+// reflect.Append is, on every success path, set into the wrapped value (Set), or stored as the node's data and handed to
+// the node's write-back function unless that is nil (the root); and every constructor of a child node of the JSON back
+// end (GetChildNodeBy*) installs a write-back that stores into the parent's data under the key it read from.
+func asg2AppendReachesTheFact(c *Ctx) {
+	p := c.P
+	for _, typ := range []string{"GoValueNode", "JSONValueNode"} {
+		fn := p.Method("model", typ, "AppendValue")
+		if fn == nil {
+			c.AnchorLost("(*model." + typ + ").AppendValue")
+			continue
+		}
+		recv := ssa.Value(receiver(fn))
+		construct := typ + ".AppendValue / the longer slice reaches the fact"
+		var app *ssa.Call
+		for _, ci := range callsIn(fn) {
+			if call, ok := ci.(*ssa.Call); ok && calleeName(call) == "reflect.Append" {
+				app = call
+			}
+		}
+		if app == nil {
+			c.Fail(construct, p.Pos(fn.Pos()), "no reflect.Append in AppendValue (anchor lost)")
+			continue
+		}
+		isSuccess := func(in ssa.Instruction) bool {
+			r, ok := in.(*ssa.Return)
+			return ok && !returnsNonNilError(r)
+		}
+		// (a) Set into the wrapped value
+		setsThrough := func(in ssa.Instruction) bool {
+			call, ok := in.(ssa.CallInstruction)
+			if !ok || calleeName(call) != "(reflect.Value).Set" || len(call.Common().Args) != 2 {
+				return false
+			}
+			return call.Common().Args[1] == ssa.Value(app) && derivesFrom(call.Common().Args[0], func(v ssa.Value) bool {
+				f, base := fieldLoad(v)
+				return f != nil && base == recv
+			})
+		}
+		if t, _ := reach(fn, app, isSuccess, setsThrough, nil); t == nil {
+			c.OK(construct, p.InstrPos(app), "set into the value the node wraps on every success path")
+			continue
+		}
+		// (b) write-back through a function field of the node
+		var fnField *types.Var
+		isWriteBack := func(in ssa.Instruction) bool {
+			call, ok := in.(*ssa.Call)
+			if !ok || call.Call.IsInvoke() || call.Call.StaticCallee() != nil || len(call.Call.Args) != 1 {
+				return false
+			}
+			f, base := fieldLoad(call.Call.Value)
+			if f == nil || base != recv {
+				return false
+			}
+			if _, isSig := f.Type().Underlying().(*types.Signature); !isSig {
+				return false
+			}
+			// the argument is the appended slice: the Append result itself or the data field it was stored into
+			arg := call.Call.Args[0]
+			okArg := arg == ssa.Value(app)
+			if df, db := fieldLoad(arg); df != nil && db == recv {
+				for _, b := range fn.Blocks {
+					for _, x := range b.Instrs {
+						if sf, sb, sv := fieldStore(x); sf == df && sb == recv && sv == ssa.Value(app) {
+							okArg = true
+						}
+					}
+				}
+			}
+			if okArg {
+				fnField = f
+			}
+			return okArg
+		}
+		t, path := reach(fn, app, isSuccess, isWriteBack, func(b *ssa.BasicBlock, si int) bool {
+			// the root has no container: the nil edge of the test of the write-back field is a way out
+			iff, isIf := b.Instrs[len(b.Instrs)-1].(*ssa.If)
+			if !isIf {
+				return true
+			}
+			kind, sNil, ok := condOn(iff.Cond, func(v ssa.Value) bool {
+				f, base := fieldLoad(v)
+				if f == nil || base != recv {
+					return false
+				}
+				_, isSig := f.Type().Underlying().(*types.Signature)
+				return isSig
+			})
+			return !(ok && kind == "nil" && si == sNil)
+		})
+		if t != nil {
+			c.Fail(construct, p.InstrPos(app), "the slice reflect.Append returns is kept in the node only: the node of a JSON member or element wraps a copy of what the enclosing object or array holds, so `J.arr.Append(7)` is lost (J stays {\"arr\":[1]}, `when J.arr.Len() < 3` holds for ever), while the same rule on a Go slice works", pathString(p, path)...)
+			continue
+		}
+		// the constructors of child nodes install the write-back
+		bad := ""
+		n := 0
+		for _, mname := range []string{"GetChildNodeByField", "GetChildNodeBySelector", "GetChildNodeByIndex"} {
+			m := p.Method("model", typ, mname)
+			if m == nil {
+				c.AnchorLost("(*model." + typ + ")." + mname)
+				continue
+			}
+			installed := false
+			for _, b := range m.Blocks {
+				for _, in := range b.Instrs {
+					sf, _, sv := fieldStore(in)
+					if sf != fnField {
+						continue
+					}
+					mc, isMC := sv.(*ssa.MakeClosure)
+					if !isMC {
+						continue
+					}
+					body, _ := mc.Fn.(*ssa.Function)
+					if body == nil {
+						continue
+					}
+					// the closure stores its argument into the parent's data: SetMapIndex(key, arg) or Index(i).Set(arg)
+					for _, ci := range callsIn(body) {
+						name := calleeName(ci)
+						args := ci.Common().Args
+						if (name == "(reflect.Value).SetMapIndex" && len(args) == 3 && args[2] == ssa.Value(body.Params[0])) || (name == "(reflect.Value).Set" && len(args) == 2 && args[1] == ssa.Value(body.Params[0])) {
+							installed = true
+						}
+					}
+				}
+			}
+			if installed {
+				n++
+			} else {
+				bad = mname + " hands out a child node without a write-back into this node's data"
+			}
+		}
+		c.Check(bad == "" && n == 3, construct, p.InstrPos(app), "stored as the node's data and handed to the write-back that each of the 3 child constructors installs (nil for the root)", bad+": an Append on a node made that way is lost")
+	}
 }
